@@ -94,9 +94,15 @@ def _new_style2(en, name, **kw):
 
 
 def _gen(con, sigcase, count, seed):
-    pools = [[], ["odfdo_auto_1"], ["odfdo_auto_2", "x"], ["odfdo_auto_9", "odfdo_auto_10"], ["odfdo_auto_", "odfdo_auto_x1"],
-             ["odfdo_auto_007"], ["P1", "odfdo_auto_3", "odfdo_auto_3"], ["odfdo_auto_+4", "odfdo_auto_ 5"]]
-    for names in pools:
+    """small scope: every list of at most 3 names over an alphabet with automatic names out of order, a two-digit
+    index, leading zeros, a non-automatic name and malformed suffixes (sizes 0, 1, 2 first: 73 cases, then 512)"""
+    import itertools
+    alpha = ["odfdo_auto_1", "odfdo_auto_2", "odfdo_auto_3", "odfdo_auto_10", "odfdo_auto_007", "P1", "odfdo_auto_",
+             "odfdo_auto_x1"]
+    for n in range(0, 4):
+        for names in itertools.product(alpha, repeat=n):
+            yield {"names_": list(names)}
+    for names in (["odfdo_auto_+4", "odfdo_auto_ 5"], ["odfdo_auto_9", "odfdo_auto_10"]):
         yield {"names_": names}
 
 
@@ -113,7 +119,7 @@ def _call(con, fn, argvals, labels):
     doc._set_automatic_name(st, "paragraph")
     res.outcome = st.name
     if st.name in existing or not st.name.startswith(PREFIX) or not st.name[len(PREFIX):].isdigit():
-        res.failures.append(("ensures:no-collision", f"generated {st.name!r} with existing {sorted(existing)!r}"))
+        res.failures.append(("ensures:no-collision", f"generated {st.name!r} with existing {sorted(map(str, existing))!r}"))
     return res
 
 
